@@ -6,7 +6,7 @@
 set -eu
 NAME="${1:?usage: agent_workspace.sh <name>}"
 W=/tmp/vw/$NAME
-mkdir -p "$W/tmp"
+mkdir -p "$W/tmp" "/dev/shm/vw-$NAME"
 if [ ! -d "$W/repo" ]; then
   git -C /repo worktree add --detach "$W/repo" HEAD >/dev/null 2>&1
 fi
@@ -23,4 +23,4 @@ if [ ! -d "$W/target" ] && [ -d /verif/target/debug ]; then
 fi
 echo "workspace ready: $W"
 echo "  cd $W/harness"
-echo "  export CARGO_TARGET_DIR=$W/target RUSTFLAGS='--cfg jj_vcs_jj_verif' CARGO_NET_OFFLINE=true TMPDIR=$W/tmp"
+echo "  export CARGO_TARGET_DIR=$W/target RUSTFLAGS='--cfg jj_vcs_jj_verif' CARGO_NET_OFFLINE=true TMPDIR=/dev/shm/vw-$NAME"
